@@ -570,6 +570,25 @@ func rulePosFused(c *Ctx, r *R) {
 // recover handler must ask *that* VM for the report, not the receiver (whose frame is empty).
 func btOwnerRule(c *Ctx, r *R) {
 	n := 0
+	// VM methods that build the report from their own receiver (a declared recover handler)
+	reportMethod := map[string]bool{"VM.btErr": true}
+	for _, name := range c.FuncNames() {
+		fd := c.Func(name)
+		if fd.Body == nil || fd.Recv == nil || !strings.HasPrefix(name, "VM.") || len(fd.Recv.List) != 1 || len(fd.Recv.List[0].Names) != 1 {
+			continue
+		}
+		recv := c.Info.Defs[fd.Recv.List[0].Names[0]]
+		ast.Inspect(fd.Body, func(nd ast.Node) bool {
+			if call, ok := nd.(*ast.CallExpr); ok && c.CalleeName(call) == "VM.btErr" {
+				if sel, ok := unparen(call.Fun).(*ast.SelectorExpr); ok {
+					if id, ok := unparen(sel.X).(*ast.Ident); ok && c.Obj(id) == recv {
+						reportMethod[name] = true
+					}
+				}
+			}
+			return true
+		})
+	}
 	for _, name := range c.FuncNames() {
 		fd := c.Func(name)
 		if fd.Body == nil {
@@ -589,10 +608,10 @@ func btOwnerRule(c *Ctx, r *R) {
 			if !ok {
 				return true
 			}
-			switch c.CalleeName(call) {
-			case "VM.exec":
+			switch cn := c.CalleeName(call); {
+			case cn == "VM.exec":
 				execOn = append(execOn, id)
-			case "VM.btErr":
+			case reportMethod[cn] && cn != name:
 				btOn = append(btOn, id)
 			}
 			return true
@@ -636,6 +655,13 @@ func ruleBtOrder(c *Ctx, r *R) {
 			if c.CalleeName(x) == "builtin.append" && !firstAppend.IsValid() {
 				firstAppend = x.Pos()
 			}
+		case *ast.CompositeLit:
+			// lines := []string{<first line>}: the list starts with the failing operation's line
+			if t, ok := c.TypeOf(x).Underlying().(*types.Slice); ok && len(x.Elts) > 0 && !firstAppend.IsValid() {
+				if b, ok := t.Elem().Underlying().(*types.Basic); ok && b.Kind() == types.String {
+					firstAppend = x.Pos()
+				}
+			}
 		}
 		return true
 	})
@@ -647,57 +673,64 @@ func ruleBtOrder(c *Ctx, r *R) {
 	// an instruction without a position (the CALL that Func synthesises for the host) is not
 	// given an invented one: every pos.String(..) of btErr is under a test that the position is set
 	nStr, nBare := 0, 0
-	ast.Inspect(fd.Body, func(n ast.Node) bool {
-		call, ok := n.(*ast.CallExpr)
-		if !ok || c.CalleeName(call) != "pos.String" {
-			return true
-		}
-		nStr++
-		sel, _ := unparen(call.Fun).(*ast.SelectorExpr)
-		recv := ""
-		if sel != nil {
-			recv = nosp(c.Src(sel.X))
-		}
-		tested := false
-		var child ast.Node = call
-		for p := c.Parent(call); p != nil && p != ast.Node(fd.Body); child, p = p, c.Parent(p) {
-			ifs, ok := p.(*ast.IfStmt)
-			if !ok {
-				continue
+	for _, hfd := range c.withHelpers(fd) {
+		hfd := hfd
+		fd := hfd
+		ast.Inspect(fd.Body, func(n ast.Node) bool {
+			call, ok := n.(*ast.CallExpr)
+			if !ok || c.CalleeName(call) != "pos.String" {
+				return true
 			}
-			cond := nosp(c.Src(ifs.Cond))
-			pos := cond == recv+"!=0" || cond == "!"+recv+".IsZero()"
-			neg := cond == recv+"==0" || cond == recv+".IsZero()"
-			if ifs.Body == child && pos || ifs.Else == child && neg {
-				tested = true
+			nStr++
+			sel, _ := unparen(call.Fun).(*ast.SelectorExpr)
+			recv := ""
+			if sel != nil {
+				recv = nosp(c.Src(sel.X))
 			}
-		}
-		// or a preceding `if p == 0 { continue }` in an enclosing block
-		child = call
-		for p := c.Parent(call); p != nil && p != ast.Node(fd.Body) && !tested; child, p = p, c.Parent(p) {
-			blk, ok := p.(*ast.BlockStmt)
-			if !ok {
-				continue
+			tested := false
+			var child ast.Node = call
+			for p := c.Parent(call); p != nil && p != ast.Node(fd.Body); child, p = p, c.Parent(p) {
+				ifs, ok := p.(*ast.IfStmt)
+				if !ok {
+					continue
+				}
+				cond := nosp(c.Src(ifs.Cond))
+				pos := cond == recv+"!=0" || cond == "!"+recv+".IsZero()"
+				neg := cond == recv+"==0" || cond == recv+".IsZero()"
+				if ifs.Body == child && pos || ifs.Else == child && neg {
+					tested = true
+				}
 			}
-			for _, st := range blk.List {
-				if st.Pos() >= child.Pos() {
+			// or a preceding `if p == 0 { continue }` in an enclosing block
+			child = call
+			for p := c.Parent(call); p != nil && !tested; child, p = p, c.Parent(p) {
+				if _, isFn := p.(*ast.FuncDecl); isFn {
 					break
 				}
-				if ifs, ok := st.(*ast.IfStmt); ok && ifs.Else == nil && len(ifs.Body.List) == 1 {
-					cond := nosp(c.Src(ifs.Cond))
-					_, isBr := ifs.Body.List[0].(*ast.BranchStmt)
-					_, isRet := ifs.Body.List[0].(*ast.ReturnStmt)
-					if (isBr || isRet) && (cond == recv+"==0" || cond == recv+".IsZero()") {
-						tested = true
+				blk, ok := p.(*ast.BlockStmt)
+				if !ok {
+					continue
+				}
+				for _, st := range blk.List {
+					if st.Pos() >= child.Pos() {
+						break
+					}
+					if ifs, ok := st.(*ast.IfStmt); ok && ifs.Else == nil && len(ifs.Body.List) == 1 {
+						cond := nosp(c.Src(ifs.Cond))
+						_, isBr := ifs.Body.List[0].(*ast.BranchStmt)
+						_, isRet := ifs.Body.List[0].(*ast.ReturnStmt)
+						if (isBr || isRet) && (cond == recv+"==0" || cond == recv+".IsZero()") {
+							tested = true
+						}
 					}
 				}
 			}
-		}
-		if !tested {
-			nBare++
-		}
-		return true
-	})
+			if !tested {
+				nBare++
+			}
+			return true
+		})
+	}
 	r.check(nStr > 0 && nBare == 0, "no invented position", c.Pos(fd), "a position is printed only when the instruction has one",
 		"btErr formats the position of an instruction that has none: an error raised by the CALL that Func/Call makes for the host is reported as `il(...) il:0:0: CALL: ...` (global 0 is \"nil\", minus its first character) — a function and file that do not exist")
 	desc := false
@@ -926,30 +959,44 @@ func ruleLoadFilter(c *Ctx, r *R) {
 				return true
 			}
 			hasBuild, skipsBlank, skipsComment := false, false, false
+			// the loop body and the new helpers it calls
+			bodies := []ast.Node{rs.Body}
 			ast.Inspect(rs.Body, func(m ast.Node) bool {
-				switch x := m.(type) {
-				case *ast.CallExpr:
-					nm := c.CalleeName(x)
-					if strings.HasSuffix(nm, "constraint.IsGoBuild") {
-						hasBuild = true
-					}
-					if nm == "strings.HasPrefix" && len(x.Args) == 2 {
-						if v, ok := c.ConstString(x.Args[1]); ok && v == "//" {
-							skipsComment = true
+				if call, ok := m.(*ast.CallExpr); ok {
+					if o := c.Callee(call); o != nil && c.isNewHelper(o) {
+						if h := c.DeclOf(o); h != nil && h.Body != nil {
+							bodies = append(bodies, h.Body)
 						}
-					}
-				case *ast.BinaryExpr:
-					if v, ok := c.ConstString(x.Y); ok && v == "" && x.Op == token.EQL {
-						skipsBlank = true
-					}
-				case *ast.ForStmt:
-					// `for line != "" { .. }`: a blank line runs no iteration and so is skipped
-					if c.strNonEmpty(x.Cond) != nil {
-						skipsBlank = true
 					}
 				}
 				return true
 			})
+			for _, body := range bodies {
+				ast.Inspect(body, func(m ast.Node) bool {
+					switch x := m.(type) {
+					case *ast.CallExpr:
+						nm := c.CalleeName(x)
+						if strings.HasSuffix(nm, "constraint.IsGoBuild") {
+							hasBuild = true
+						}
+						if nm == "strings.HasPrefix" && len(x.Args) == 2 {
+							if v, ok := c.ConstString(x.Args[1]); ok && v == "//" {
+								skipsComment = true
+							}
+						}
+					case *ast.BinaryExpr:
+						if v, ok := c.ConstString(x.Y); ok && v == "" && x.Op == token.EQL {
+							skipsBlank = true
+						}
+					case *ast.ForStmt:
+						// `for line != "" { .. }`: a blank line runs no iteration and so is skipped
+						if c.strNonEmpty(x.Cond) != nil {
+							skipsBlank = true
+						}
+					}
+					return true
+				})
+			}
 			if hasBuild && skipsBlank && skipsComment {
 				header = true
 			}
@@ -959,36 +1006,39 @@ func ruleLoadFilter(c *Ctx, r *R) {
 		// what follows the end of a block comment on the same line is looked at again (code
 		// there ends the header; a later //go:build in the body must not exclude the file)
 		afterBlock := false
-		ast.Inspect(cf.Body, func(n ast.Node) bool {
-			as, ok := n.(*ast.AssignStmt)
-			if !ok || len(as.Rhs) != 1 || len(as.Lhs) != 3 {
-				return true
-			}
-			call, ok := unparen(as.Rhs[0]).(*ast.CallExpr)
-			if !ok || c.CalleeName(call) != "strings.Cut" || len(call.Args) != 2 {
-				return true
-			}
-			if v, ok := c.ConstString(call.Args[1]); !ok || v != "*/" {
-				return true
-			}
-			rid, ok := as.Lhs[1].(*ast.Ident)
-			if !ok || rid.Name == "_" {
-				return true
-			}
-			ro := c.Obj(rid)
-			ast.Inspect(cf.Body, func(m ast.Node) bool {
-				if a2, ok := m.(*ast.AssignStmt); ok && len(a2.Lhs) == 1 && len(a2.Rhs) == 1 && nosp(c.Src(a2.Lhs[0])) == nosp(c.Src(call.Args[0])) {
-					ast.Inspect(a2.Rhs[0], func(k ast.Node) bool {
-						if id, ok := k.(*ast.Ident); ok && c.Obj(id) == ro {
-							afterBlock = true
-						}
-						return true
-					})
+		for _, hcf := range c.withHelpers(cf) {
+			cf := hcf
+			ast.Inspect(cf.Body, func(n ast.Node) bool {
+				as, ok := n.(*ast.AssignStmt)
+				if !ok || len(as.Rhs) != 1 || len(as.Lhs) != 3 {
+					return true
 				}
+				call, ok := unparen(as.Rhs[0]).(*ast.CallExpr)
+				if !ok || c.CalleeName(call) != "strings.Cut" || len(call.Args) != 2 {
+					return true
+				}
+				if v, ok := c.ConstString(call.Args[1]); !ok || v != "*/" {
+					return true
+				}
+				rid, ok := as.Lhs[1].(*ast.Ident)
+				if !ok || rid.Name == "_" {
+					return true
+				}
+				ro := c.Obj(rid)
+				ast.Inspect(cf.Body, func(m ast.Node) bool {
+					if a2, ok := m.(*ast.AssignStmt); ok && len(a2.Lhs) == 1 && len(a2.Rhs) == 1 && nosp(c.Src(a2.Lhs[0])) == nosp(c.Src(call.Args[0])) {
+						ast.Inspect(a2.Rhs[0], func(k ast.Node) bool {
+							if id, ok := k.(*ast.Ident); ok && c.Obj(id) == ro {
+								afterBlock = true
+							}
+							return true
+						})
+					}
+					return true
+				})
 				return true
 			})
-			return true
-		})
+		}
 		r.check(afterBlock, "block comment remainder", c.Pos(cf), "the text after the end of a block comment is examined as the rest of the line", "checkConstraint treats a line that starts with /* as comment to its end: `/* generated */ package main` does not end the header, so a //go:build line further down (inside the code) excludes a file Go would build")
 		r.check(tagOK, "tag predicate", c.Pos(cf), `only the tag "goat" is set`, `the build-constraint evaluator's tag predicate is not exactly t == "goat"`)
 		ast.Inspect(cf.Body, func(n ast.Node) bool {
